@@ -70,7 +70,13 @@ var builtinBin = map[string]int{"||": 3, "&&": 4, "==": 5, "!=": 5, "<": 6, ">":
 var peerOfLevel = map[int]string{3: "||", 4: "&&", 5: "==", 6: "<", 7: "+", 8: "*"}
 
 // c05Build creates builders with the custom operators installed.
-func c05Build(ops []c05Op) (*parser.Builder, error) {
+func c05Build(ops []c05Op) (*parser.Builder, error) { return c05BuildStaged(ops, -1) }
+
+// c05BuildStaged registers the operators like c05Build, but builds and uses a
+// parser after the first `cut` registrations (cut < 0: never): a builder that
+// has already built parsers goes on accepting registrations, and the parsers it
+// builds afterwards know all of them.
+func c05BuildStaged(ops []c05Op, cut int) (*parser.Builder, error) {
 	lb := lexer.NewBuilder()
 	types := map[string]token.Type{}
 	for _, o := range ops {
@@ -90,8 +96,11 @@ func c05Build(ops []c05Op) (*parser.Builder, error) {
 		return t
 	})
 	pb := parser.NewBuilder(lb)
-	for _, o := range ops {
+	for i, o := range ops {
 		o := o
+		if i == cut {
+			pb.Build("a + b * c\nd(e).f").ParseProgram()
+		}
 		var err error
 		switch o.Role {
 		case "infix":
@@ -275,6 +284,21 @@ func c05Check(c c05Case, rec *evid.Recorder) *Fail {
 			f.tag("level1-infix-never-applied")
 		}
 		return f
+	}
+	// registrations made after the builder has built (and used) a parser count as well
+	for cut := 0; cut < len(c.Ops); cut++ {
+		spb, err := c05BuildStaged(c.Ops, cut)
+		if err != nil {
+			return failf("registration refused on a builder that has built a parser before (after %d of %v): %v", cut, c.Ops, err)
+		}
+		sgot, serrs, serr := c05ParseX(spb, src)
+		if serr != nil || len(serrs) > 0 {
+			return failf("a builder that built a parser after %d of its %d registrations rejects %q: %v %v (registered up front: accepted)\nops %v", cut, len(c.Ops), src, serr, serrs, c.Ops)
+		}
+		if d := ir.Diff(got, sgot); d != "" {
+			return failf("a builder that built a parser after %d of its %d registrations groups differently: %s\nsrc %q ops %v\nup front %s\nstaged   %s", cut, len(c.Ops), d, src, c.Ops, ir.Sexp(got), ir.Sexp(sgot))
+		}
+		rec.Class("history:registration-after-build")
 	}
 	// metamorphic: replace custom operators that have a built-in peer
 	peers := map[string]*ir.Node{}
